@@ -99,6 +99,15 @@ type EchPlan struct {
 	// Transport.TLSConfig = the caller's config, Transport.Dialer carrying the
 	// options above). One host; no attempt succeeds (the scripted DialFunc has
 	// no *tls.Conn to give), so the request fails after the last attempt.
+	// Twin: a second Dial runs at the same time on the SAME Dialer value, for the
+	// same address, with the complementary caller setting (a config list of its
+	// own where this call has none, none where this call has one). Each call is
+	// judged by its own expectations.
+	Twin bool `json:"twin,omitempty"`
+	// OwnDialer (with ViaTransport): the application installs a Dialer value of
+	// its own in Transport.Dialer instead of changing the fields of the one
+	// NewTransport made.
+	OwnDialer    bool `json:"own_dialer,omitempty"`
 	ViaTransport bool `json:"via_transport,omitempty"`
 	// CallerMaxVersion: the caller pins tls.Config.MaxVersion (a config written
 	// for a legacy peer); what crypto/tls makes of that together with an ECH
@@ -396,6 +405,8 @@ func canonIP(s string) string {
 
 // ---------------------------------------------------------------------------
 
+type twinKey struct{}
+
 type echCall struct {
 	ip, addr string
 	n        int // 0 first call for this address, 1 second ...
@@ -570,6 +581,28 @@ func executeEch(t *testing.T, prop string, seed uint64, p *EchPlan) *core.Result
 	}
 
 	es := &echState{perIP: map[string]int{}}
+	// the twin call (see EchPlan.Twin)
+	var pB *EchPlan
+	var esB *echState
+	var callerB, beforeB *tls.Config
+	var retConnB *simConn
+	var retErrB error
+	var retSeqB, retTB int64
+	if p.Twin && !p.ViaTransport && !p.CallerNil {
+		q := *p
+		if p.CallerECH > 0 {
+			q.CallerECH = 0
+		} else {
+			q.CallerECH = 977
+		}
+		pB, esB = &q, &echState{perIP: map[string]int{}}
+		callerB = &tls.Config{ServerName: q.CallerServerName, NextProtos: []string{"h2", "http/1.1"}, MinVersion: tls.VersionTLS13}
+		if q.CallerECH > 0 {
+			callerB.EncryptedClientHelloConfigList = callerList(q.CallerECH)
+		}
+		beforeB = &tls.Config{ServerName: callerB.ServerName, NextProtos: slices.Clone(callerB.NextProtos), MinVersion: callerB.MinVersion,
+			EncryptedClientHelloConfigList: slices.Clone(callerB.EncryptedClientHelloConfigList)}
+	}
 	var retConn *simConn
 	var retErr error
 	var retSeq, retT int64
@@ -586,6 +619,18 @@ func executeEch(t *testing.T, prop string, seed uint64, p *EchPlan) *core.Result
 		}
 		d := &ech.Dialer[*simConn]{RequireECH: p.RequireECH, Resolver: resolver, PublicName: p.PublicName,
 			MaxConcurrency: p.MaxConc, ConcurrencyDelay: time.Duration(p.DelayNs), Timeout: time.Duration(p.TimeoutNs), DialFunc: es.dialFunc(p)}
+		var twinDone chan struct{}
+		if esB != nil {
+			esB.rs = es.rs
+			fa, fb := es.dialFunc(p), esB.dialFunc(pB)
+			d.DialFunc = func(ctx context.Context, network, addr string, tc *tls.Config) (*simConn, error) {
+				if ctx.Value(twinKey{}) != nil {
+					return fb(ctx, network, addr, tc)
+				}
+				return fa(ctx, network, addr, tc)
+			}
+			twinDone = make(chan struct{})
+		}
 		ctx, cancel := context.WithCancel(context.Background())
 		defer cancel()
 		if p.ViaTransport {
@@ -593,6 +638,9 @@ func executeEch(t *testing.T, prop string, seed uint64, p *EchPlan) *core.Result
 			tr := ech.NewTransport()
 			tr.Resolver = resolver
 			tr.TLSConfig = caller
+			if p.OwnDialer {
+				tr.Dialer = &ech.Dialer[*tls.Conn]{}
+			}
 			tr.Dialer.RequireECH, tr.Dialer.PublicName = p.RequireECH, p.PublicName
 			tr.Dialer.MaxConcurrency, tr.Dialer.ConcurrencyDelay, tr.Dialer.Timeout = p.MaxConc, time.Duration(p.DelayNs), time.Duration(p.TimeoutNs)
 			tr.Dialer.DialFunc = func(ctx context.Context, network, addr string, tc *tls.Config) (*tls.Conn, error) {
@@ -635,12 +683,25 @@ func executeEch(t *testing.T, prop string, seed uint64, p *EchPlan) *core.Result
 			})
 			tr.HTTPTransport.CloseIdleConnections()
 		} else {
+			if twinDone != nil {
+				go func() {
+					defer close(twinDone)
+					core.Guard(func() {
+						retConnB, retErrB = d.Dial(context.WithValue(ctx, twinKey{}, 1), p.Network, addr, callerB)
+					})
+					retSeqB = es.rs.seq.Add(1)
+					retTB = int64(time.Since(es.rs.t0))
+				}()
+			}
 			_, panicS, panicAt = core.Guard(func() {
 				retConn, retErr = d.Dial(ctx, p.Network, addr, caller)
 			})
 		}
 		retSeq = es.rs.seq.Add(1)
 		retT = int64(time.Since(es.rs.t0))
+		if twinDone != nil {
+			<-twinDone
+		}
 		if rest := horizon - time.Since(es.rs.t0); rest > 0 {
 			time.Sleep(rest)
 		}
@@ -724,6 +785,17 @@ func executeEch(t *testing.T, prop string, seed uint64, p *EchPlan) *core.Result
 		return res
 	}
 	judgeEch(res, prop, p, es, caller, before, retConn, retErr, retSeq, retT, len(up.queries), resolverFault || len(p.Zone.Fail) > 0)
+	if esB != nil {
+		// the twin, by its own expectations (what goes into the canonical log and
+		// the signature stays this call's)
+		tmp := &core.Result{}
+		judgeEch(tmp, prop, pB, esB, callerB, beforeB, retConnB, retErrB, retSeqB, retTB, len(up.queries), true)
+		for _, v := range tmp.Violations {
+			res.Fail(prop, v.Class, v.Site+" (second of two calls that share one Dialer)", "%s", v.Detail)
+		}
+		res.Probe("two_dials_on_one_dialer")
+		res.Arbitrated = true
+	}
 	if retNilNil.Load() {
 		res.Probe("dial_returned_nil_nil") // C18's clause; the C18 check judges it on its own plans
 	}
@@ -997,6 +1069,16 @@ func judgeEch(res *core.Result, prop string, p *EchPlan, es *echState, caller, b
 		}
 	}
 
+	// --- the Dialer the application installed is the one that dials
+	if p.ViaTransport && p.OwnDialer && len(calls) == 0 && !refusalPossible && !anyResolverFault && len(p.PublicName) <= 255 && retErr != nil {
+		reachable := false
+		for _, m := range models {
+			reachable = reachable || len(m.own) > 0
+		}
+		if reachable {
+			res.Fail(prop, "own-dialer", "the request fails without one call of the DialFunc of the Dialer installed in Transport.Dialer (whatever dialled, it was not bound by that Dialer's RequireECH / PublicName)", "hosts %v: error %s", p.Hosts, errText(retErr))
+		}
+	}
 	// --- caller's config untouched
 	if caller != nil {
 		switch {
